@@ -5,7 +5,7 @@ import json, sys
 CHECKS = {
  "C02": dict(level="exploration", design="4/C02",
    technique="bounded-exhaustive input enumeration through the virtual wire into the real FSM (vrt runtime, default schedule) vs independent reference predicate",
-   text="Every OPEN body of a finite, explicitly enumerated space (boundary product of all fixed fields x optional-parameter/capability layouts incl. length-octet mutations and truncations x configurations x both directions) is sent to the real, rewritten corebgp FSM over the virtual network and the observed reaction (KEEPALIVE/OnOpenMessage/Established or the single NOTIFICATION+EOF) is compared with an independent RFC-derived acceptability predicate with set-valued admissible reactions. Exhaustive inside the stated alphabets; says nothing about values outside them.",
+   text="Every OPEN body of a finite, explicitly enumerated space (boundary product of all fixed fields x optional-parameter/capability layouts incl. length-octet mutations and truncations x configurations x both directions) is sent to the real, rewritten corebgp FSM over the virtual network and the observed reaction (KEEPALIVE/OnOpenMessage/Established or the single NOTIFICATION+EOF) is compared with an independent RFC-derived acceptability predicate with set-valued admissible reactions. Exhaustive inside the stated alphabets; says nothing about values outside them. A quarter of the bodies are sent 1.5 s after the remote could have sent them (acceptability does not depend on when the OPEN arrives), combined with local hold time 0 and 90.",
    note="trusted: vinstr rewriting (validated by running the repository's tests on the rewritten package), vrt/vnet semantics, refmodel.JudgeOpen; default schedule only"),
  "C08": dict(level="exploration", design="4/C08",
    technique="bounded-exhaustive enumeration of faulty headers / segmentations / states through the virtual wire into the real FSM vs RFC 4271 6.1 reaction table; every case (quick: every 10th) is also replayed against the unrewritten package on the Go runtime over loopback TCP and the transcripts compared (conformance of the virtual runtime)",
@@ -13,7 +13,7 @@ CHECKS = {
    note="trusted: vinstr/vrt/vnet, wire.ParseStrict; default schedule only; data of (1,1)/(1,2) not judged"),
  "C09": dict(level="exploration", design="4/C09",
    technique="exhaustive enumeration of the (state, message, direction) table and received NOTIFICATION/FIN/RST faults through the virtual wire into the real FSM; every case (quick: every 10th) is also replayed against the unrewritten package on the Go runtime over loopback TCP and the transcripts compared (conformance of the virtual runtime)",
-   text="All 3 states x {OPEN, UPDATE, KEEPALIVE} x 2 directions, received NOTIFICATIONs (codes 1-7 x subcodes x data lengths), FIN and RST also in mid-message: each cell is one real FSM run judged against the RFC 4271 8.2.2 / RFC 6608 table (legal progress, FSM error with state subcode and type octet, silent close), OnClose exactly once for Established cells. The table is finite and enumerated completely. Also semantically invalid OPENs in later states, 4096-octet messages, the table on the second session of a peer, other session configurations, a slow OnClose, and stimuli late in a session with running timers and a plugin write in between.",
+   text="All 3 states x {OPEN, UPDATE, KEEPALIVE} x 2 directions, received NOTIFICATIONs (codes 1-7 x subcodes x data lengths), FIN and RST also in mid-message: each cell is one real FSM run judged against the RFC 4271 8.2.2 / RFC 6608 table (legal progress, FSM error with state subcode and type octet, silent close), OnClose exactly once for Established cells. The table is finite and enumerated completely. Also semantically invalid OPENs in later states, 4096-octet messages, the table on the second session of a peer, other session configurations, a slow OnClose, and stimuli late in a session with running timers and a plugin write in between. The reaction to a NOTIFICATION / FIN / RST in Established is also exercised while plugin goroutines are blocked in WriteUpdate behind a full window (stalled-writer scenarios, all schedules within 1 deviation).",
    note="trusted: vinstr/vrt/vnet; default schedule only"),
  "C14": dict(level="exploration", design="4/C14",
    technique="bounded-exhaustive enumeration of configurations and plugin capability lists; first message of each real connection parsed by an independent strict OPEN parser",
@@ -29,11 +29,11 @@ CHECKS = {
    note="trusted: vinstr/vrt/vnet; dominance judged only where the remote's script removes TCP-level ambiguity"),
  "C10": dict(level="model_checking", design="4/C10",
    technique="stateless model checking of the implementation: API call injected at every step index x delay-bounded schedule exploration, vector-clock data-race detection on every execution",
-   text="Close/DeletePeer is issued at every step index of the default execution (and at the first quiescent point) of 14 connection scripts covering every FSM state in both directions, collision, damping, active writers, reconnect and a by-stander peer; around each trigger all schedules within the delay bound are enumerated on the real code. Oracles: bounded virtual latency, Serve return value, every library connection closed, Cease before EOF on healthy connections, callback monitor, goroutine-leak rule at a post-return quiescent cut, and a FastTrack-style race detector fed by instrumented field/array/map accesses on every execution. Also Close with a concurrent AddPeer or an arriving connection, bursts of inbound connections, hold-time-0 peers, a peer that stopped reading on a bounded-window network (known finding D16), API calls landing inside a slow plugin callback.",
+   text="Close/DeletePeer is issued at every step index of the default execution (and at the first quiescent point) of 14 connection scripts covering every FSM state in both directions, collision, damping, active writers, reconnect and a by-stander peer; around each trigger all schedules within the delay bound are enumerated on the real code. Oracles: bounded virtual latency, Serve return value, every library connection closed, Cease before EOF on healthy connections, callback monitor, goroutine-leak rule at a post-return quiescent cut, and a FastTrack-style race detector fed by instrumented field/array/map accesses on every execution. Also Close with a concurrent AddPeer or an arriving connection, bursts of inbound connections, hold-time-0 peers, a peer that stopped reading on a bounded-window network (known finding D16), API calls landing inside a slow plugin callback. Two shutdown calls at once (DeletePeer || Close, Close || Close at a swept offset, also with a 300 ms callback in the way) are judged at the return of Close by the callback monitor; goroutines that a serving server without peers keeps are learnt from the tree under test.",
    note="trusted: vinstr/vrt/vnet; race detector scope A5; bound 1 (quick) / 2 (thorough)"),
  "C15": dict(level="exploration", design="4/C15",
    technique="bounded-exhaustive input enumeration of codec values and byte strings vs independent reference encoder / strict parser (white-box through a generated export shim)",
-   text="All (code, subcode) x short data and every data length 0..4075 for NOTIFICATION, boundary products of OPEN fields x parameter/capability layouts incl. the 255-octet limits, all byte strings up to length 7 over a protocol alphabet and all single-octet substitutions/length mutations/truncations for the decoders, all add-path tuple lists up to 3 and the full AFI x SAFI grid: round-trip both ways, equality with a reference encoding, strictness against wire.ParseOpenStrict.",
+   text="All (code, subcode) x short data and every data length 0..4075 for NOTIFICATION, boundary products of OPEN fields x parameter/capability layouts incl. the 255-octet limits, all byte strings up to length 7 over a protocol alphabet and all single-octet substitutions/length mutations/truncations for the decoders, all add-path tuple lists up to 3 and the full AFI x SAFI grid: round-trip both ways, equality with a reference encoding, strictness against wire.ParseOpenStrict. A wrapper of the export shim that no longer compiles against the tree under test is replaced by its stub; the check then judges what it can still reach, names the stubbed wrappers and reports exhaustive=false.",
    note="trusted: the trivial wrappers in export/zz_verif_export.go.txt, refmodel/codec.go, wire"),
  "C18": dict(level="exploration", design="4/C18",
    technique="bounded-exhaustive input enumeration of the 11 exported attribute decoders vs an RFC-derived reference table",
@@ -49,7 +49,7 @@ CHECKS = {
    note="trusted: vinstr/vrt/vnet; segmentation model A3"),
  "C04": dict(level="model_checking", design="4/C04",
    technique="stateless model checking of the implementation: delay-bounded exhaustive schedule exploration of concurrent WriteUpdate callers vs keepalive timer vs teardown, strict frame parser on all written bytes, race detector",
-   text="WriteUpdate from inside OnEstablished, from inside the handler and from 1-3 free goroutines, timed to coincide with the keepalive timer and with FIN / received NOTIFICATION / handler NOTIFICATION / Close, followed by reconnection and reuse of the old writers; all schedules within the delay bound on the real code; every byte corebgp wrote is parsed strictly per connection and matched as a multiset and per-goroutine order against the calls' return values. Also a stalled reader on a bounded-window network, a plugin whose OnClose joins its writers, two peers with a writer each, writes from inside the handler after an RST, and a header fault arriving while writers are active.",
+   text="WriteUpdate from inside OnEstablished, from inside the handler and from 1-3 free goroutines, timed to coincide with the keepalive timer and with FIN / received NOTIFICATION / handler NOTIFICATION / Close, followed by reconnection and reuse of the old writers; all schedules within the delay bound on the real code; every byte corebgp wrote is parsed strictly per connection and matched as a multiset and per-goroutine order against the calls' return values. Also a stalled reader on a bounded-window network, a plugin whose OnClose joins its writers, two peers with a writer each, writes from inside the handler after an RST, and a header fault arriving while writers are active. Scenario family stalled-writer: on a bounded-window network the remote stops reading until the writers block inside WriteUpdate, then ends the session (NOTIFICATION, FIN or RST); one second later the connection is closed, OnClose has returned and every blocked call has been released. A trailing fragment is not counted against corebgp where the peer itself cut the connection under a message in flight (next write of the same goroutine refused with EPIPE, nothing written after); net.Buffers on a virtual connection is one vectored write, as on a TCP connection.",
    note="trusted: vinstr/vrt/vnet; Write atomicity assumption A3"),
  "C06": dict(level="exploration", design="4/C06",
    technique="bounded-exhaustive enumeration of (local hold, remote hold, traffic pattern, write pattern, timer semantics) in virtual time on the real FSM, plus delay-bounded schedule exploration around expiry; thorough tier: 48 cases are also run in real time on the Go runtime over loopback TCP and the timelines compared with the virtual ones (conformance of the virtual clock)",
@@ -81,7 +81,7 @@ CHECKS = {
    note="trusted: vinstr/vrt, porcupine v1.3.0, refMap"),
  "C05": dict(level="exploration", design="4/C05",
    technique="bounded-exhaustive enumeration of hostile byte streams at every FSM state, of byte strings into every exported decoder, and of API call sequences (with delay-bounded schedules) on the real code, each followed by a liveness probe",
-   text="Every type octet / boundary length / marker corruption / truncation+FIN / OPEN body of G02 / short UPDATE body (through a plugin wiring all typed decoders) at each state and direction, followed by a second peer that must still establish, Close and Serve that must return and an empty set of library goroutines; all byte strings up to length 2 (3) over all 256 values into each of 23 exported decoding entry points plus lengths up to 70000; all API sequences up to length 4 (5) incl. repeated Serve under all schedules within delay bound 1. Also the UPDATE body sets of C16 into UpdateDecoder (returns-at-all oracle), the matrix of first-connection scripts of C01 run to the end of their reconnections, plugins that couple their callbacks, inbound connections and a boundary-option peer as API operations.",
+   text="Every type octet / boundary length / marker corruption / truncation+FIN / OPEN body of G02 / short UPDATE body (through a plugin wiring all typed decoders) at each state and direction, followed by a second peer that must still establish, Close and Serve that must return and an empty set of library goroutines; all byte strings up to length 2 (3) over all 256 values into each of 23 exported decoding entry points plus lengths up to 70000; all API sequences up to length 4 (5) incl. repeated Serve under all schedules within delay bound 1. Also the UPDATE body sets of C16 into UpdateDecoder (returns-at-all oracle), the matrix of first-connection scripts of C01 run to the end of their reconnections, plugins that couple their callbacks, inbound connections and a boundary-option peer as API operations. Wire cases are also run with a remote that neither reads on nor hangs up until Close has returned; the stalled-writer scenarios of C04 are run as wedge scenarios.",
    note="trusted: vinstr/vrt/vnet; panic attribution by stack frames"),
 }
 
